@@ -133,8 +133,54 @@ def g_llm_text(rng, dialog="general"):
     return "t" + t if t.startswith('"') else t
 
 
+TPL_HEADS = ["I can't respond to that (", "Refused: ", "", "Sorry - ", "No. Reason: ", "Blocked by "]
+TPL_MIDS = [" / ", ", because of ", " ", ": ", ") ("]
+TPL_TAILS = [")", ").", ". Sorry", "", "!", ", ok", " - no", "."]
+STATIC_MSGS = ["Custom refusal.", "No.", "I will not answer that; ask something else.", "bad request"]
+
+
+def g_tpl(rng, variables=("block_reason", "block_reason", "blocked_text", "user_message", "nothing_set"), static=0.15, worded=False):
+    """a predefined bot message: mostly with template variables, in both syntaxes (`{{ var }}`, `{{var}}`, `$var`), as the whole
+    message, inside a sentence, or two of them; `static` of them are plain custom texts"""
+    if rng.random() < static:
+        return [["lit", rng.choice(STATIC_MSGS)]]
+    var = lambda: ["var", rng.choice(variables), rng.choice(["jinja", "dollar", "dollar", "tight"])]
+    k = rng.random()
+    head = rng.choice([h for h in TPL_HEADS if h or not worded])  # worded: the message never renders to the empty text
+    if k < 0.25 and not worded:
+        return [var()]
+    if k < 0.75:
+        return [p for p in (["lit", head], var(), ["lit", rng.choice(TPL_TAILS)]) if p != ["lit", ""]]
+    return [p for p in (["lit", head], var(), ["lit", rng.choice(TPL_MIDS)], var(), ["lit", rng.choice(TPL_TAILS)]) if p != ["lit", ""]]
+
+
+REASONS = ["long reason " * 60, "input policy", "policy 7", "output policy", "bad words", "evil", "boom x", "", "$user_message", "$bot_message", "{{ 1/0 }}", "{{ block_reason }}",
+           'it\'s "quoted"', "a\nb", " lead", "zz", "!", po.REFUSAL, "$", "{{", "x" * 300]
+
+
+def g_reasons(rng, cfg):
+    """the texts the scripted rails hand out as `$verdict.reason` (-> `$block_reason`): names, texts with the trigger words of the
+    OUTPUT rails' rules (a refusal that mentions them is still the refusal), texts that look like syntax"""
+    needles = [n for rules in cfg["output"] for n, _ in rules if n]
+    return {cat: [(rng.choice(needles) + " reason" if needles and rng.random() < 0.3 else rng.choice(REASONS)) if rng.random() < 0.8 else po.rail_name(cat, i)
+                  for i in range(len(cfg[cat]))] for cat in ("input", "output")}
+
+
+def g_msgs(rng, n_in, n_out, dialog):
+    """the predefined messages of a configuration: 45 % leave everything to the library (static refusal); otherwise the refusal is a
+    template, some rails have a refusal of their own, and a fifth utter a (templated) notice before the refusal"""
+    if rng.random() < 0.45:
+        return None
+    # a dialog flow that says `bot refuse to respond` sets no variables: its refusal only reads the runtime's own ones
+    rv = ("user_message", "nothing_set") if dialog == "refuse" else ("block_reason", "block_reason", "blocked_text", "user_message", "nothing_set")
+    m = {"refusal": g_tpl(rng, rv, worded=(dialog == "refuse")) if rng.random() < 0.8 else None,
+         "own": {"input": [g_tpl(rng) if rng.random() < 0.3 else None for _ in range(n_in)], "output": [g_tpl(rng) if rng.random() < 0.3 else None for _ in range(n_out)]},
+         "notice": g_tpl(rng, static=0.3) if rng.random() < 0.2 else None}
+    return m
+
+
 def g_cfg(rng, small):
-    return {
+    cfg = {
         "input": [g_rail(rng) for _ in range(rng.choice([0, 1, 1, 2, 2] if small else [0, 1, 2, 2, 3]))],
         "output": [g_rail(rng) for _ in range(rng.choice([0, 1, 1, 2, 2] if small else [0, 1, 2, 2, 3]))],
         "retrieval": [[] for _ in range(rng.choice([0, 1, 1] if small else [0, 1, 2]))],
@@ -143,6 +189,35 @@ def g_cfg(rng, small):
         "exceptions": rng.random() < 0.2,
         "text_from": rng.choice(["param", "param", "context"]),
     }
+    m = g_msgs(rng, len(cfg["input"]), len(cfg["output"]), cfg["dialog"])
+    if m is not None:
+        if cfg["retrieval"]:
+            # a notice + a refusal are TWO utterances of one rail; with retrieval rails configured the blocked rail is not resumed
+            # after the retrieval rails ran inside the first utterance's `generate bot message` (observation in design_notes/C16.md:
+            # its `stop` is never emitted either) - what is said then is not documented: the notice is used without retrieval rails only
+            m["notice"] = None
+        cfg["msgs"] = m
+    if cfg["dialog"] == "predef" and rng.random() < 0.5:
+        # the dialog flow's predefined message interpolates the runtime's own variable
+        cfg["predef_parts"] = g_tpl(rng, ("user_message", "user_message", "nothing_set"), static=0, worded=True)
+    return cfg
+
+
+def with_rules(rng, base, faults=True):
+    """the structural configuration `base` (one LLMRails) with fresh rule tables and fresh reason texts (data only)"""
+    cfg = dict(base, input=[g_rail(rng, faults) for _ in base["input"]], output=[g_rail(rng, faults) for _ in base["output"]])
+    if "msgs" in base:
+        cfg["reasons"] = g_reasons(rng, cfg)
+        if rng.random() < 0.35:
+            # more turns that a rail ends: where the predefined messages are templates the refusal is what matters
+            cat = rng.choice([c for c in ("input", "output") if cfg[c]] or ["input"])
+            if cfg[cat]:
+                cfg[cat][rng.randrange(len(cfg[cat]))].insert(0, [rng.choice(["", "bad", "x", "evil", "hi"]), ["reject"]])
+    return cfg
+
+
+EXH_MSGS = {"refusal": [["lit", "I can't respond to that ("], ["var", "block_reason", "jinja"], ["lit", ": "], ["var", "blocked_text", "dollar"], ["lit", ")."]],
+            "own": {"input": [], "output": []}, "notice": None}
 
 
 def subsets():
@@ -175,7 +250,7 @@ def gen_e2e(rng, tier):
     for s in subs + [None, "NOOPT"]:
         for k in range(per_subset):
             base = rng.choice(cfgs)
-            cfg = dict(base, input=[g_rail(rng) for _ in base["input"]], output=[g_rail(rng) for _ in base["output"]])
+            cfg = with_rules(rng, base)
             llm_text = g_llm_text(rng, cfg["dialog"])
             cases.append(mk_e2e(cfg, None if s in (None, "NOOPT") else s, g_text(rng), rng.choice([None, g_text(rng), g_text(rng)]), llm_text, no_options=(s == "NOOPT"), form=g_form(rng)))
     if tier == "thorough":
@@ -187,6 +262,10 @@ def gen_e2e(rng, tier):
                         for vout in itertools.product(VERDICTS, repeat=n_out):
                             cfg = {"input": [[["", v]] for v in vin], "output": [[["", v]] for v in vout], "retrieval": [[]], "rail_def": "subflow",
                                    "dialog": "general" if (n_in + n_out) % 2 == 0 else "llm", "exceptions": False}
+                            if len(s) % 2 == 1:
+                                # every other selection: the refusal is a template over what the blocking rail sets
+                                cfg["msgs"] = EXH_MSGS
+                                cfg["reasons"] = {"input": ["in-%d says" % i for i in range(n_in)], "output": ["out-%d says" % i for i in range(n_out)]}
                             cases.append(mk_e2e(cfg, s, "hi", "bot says", "llm says"))
     cases.sort(key=lambda c: json.dumps(po._cfg_key(c["cfg"])))  # group by structural configuration (one LLMRails each)
     return cases
@@ -246,7 +325,7 @@ def gen_seq(rng, tier):
     for k in range(n):
         base = rng.choice(cfgs)
         # no faulting rails here: what a fault (hide_prev_turn) does to LATER turns is C03's subject
-        cfg = dict(base, input=[g_rail(rng, faults=False) for _ in base["input"]], output=[g_rail(rng, faults=False) for _ in base["output"]])
+        cfg = with_rules(rng, base, faults=False)
         via = rng.choice(["state"] * 11 + ["history"] * 5 + ["separate"] * 4)
         ln = 2 if (via == "state" and rng.random() < 0.8) else rng.choice([2, 3])
         r = rng.random()
@@ -562,14 +641,53 @@ def _run_impl0(case):
 
 # ----------------------------------------------------------------------------- model
 
-def dialog_req(cfg, llm_text):
+def selection(c):
+    return set(CATS) if (c.get("no_options") or c["opts"] is None) else set(c["opts"])
+
+
+def user_after_input(cfg, c):
+    """`$user_message` once the input rails are through (documented chain); None when they end the turn"""
+    if "input" in selection(c) and cfg["input"]:
+        res, _ = chain(cfg["input"], c["user"])
+        return res[1] if res[0] == "ok" else None
+    return c["user"]
+
+
+def expected_block(cfg, c):
+    """(category, index, text the rail was shown, `$user_message` at that moment) of the rail that ends the call `c` with a refusal
+    according to the documented chain (rails-only selections; None: nobody refuses / a fault / rails-exception mode)"""
+    sel = selection(c)
+    text = c["user"]
+    if "input" in sel and cfg["input"]:
+        res, seen = chain(cfg["input"], text)
+        if res[0] == "blocked":
+            return ("input", res[1], seen[-1], seen[-1])
+        if res[0] != "ok":
+            return None
+        text = res[1]
+    if "output" in sel and cfg["output"]:
+        if "dialog" in sel:
+            bot = c["llm_text"] if cfg.get("dialog", "general") in ("general", "llm") else None
+        else:
+            bot = c["bot"]
+        if bot is not None:
+            res, seen = chain(cfg["output"], bot)
+            if res[0] == "blocked":
+                return ("output", res[1], seen[-1], text)
+    return None
+
+
+def dialog_req(cfg, llm_text, c=None):
+    """what the dialog rails answer (model side).  The text of a predefined message is what it SAYS in this call (its template
+    variables replaced - harness-side rendering, `po.tpl_render`; the model's message texts are plain strings)"""
     d = cfg.get("dialog", "general")
+    um = (user_after_input(cfg, c) if c is not None else None) or ""
     if d == "general":
         return {"kind": "general", "text": llm_text}
     if d == "predef":
-        return {"kind": "intent", "flow": "greeting", "bot_intent": "express greeting", "predefined": True, "text": cfg.get("predef_text", "Hello there")}
+        return {"kind": "intent", "flow": "greeting", "bot_intent": "express greeting", "predefined": True, "text": po.predef_text(cfg, um)}
     if d == "refuse":
-        return {"kind": "intent", "flow": "greeting", "bot_intent": "refuse to respond", "predefined": True, "text": po.REFUSAL}
+        return {"kind": "intent", "flow": "greeting", "bot_intent": "refuse to respond", "predefined": True, "text": po.dialog_refusal(cfg, um)}
     return {"kind": "intent", "flow": "greeting", "bot_intent": "express greeting", "predefined": False, "text": llm_text}
 
 
@@ -583,24 +701,27 @@ def model_requests(case, obs):
     if case["kind"] == "seq":
         n = len(obs["per_call"])
         reqs = [{"m": "C16.session", "cfg": mcfg, "calls": [{"opts": None if c.get("no_options") else (c["opts"] if c["opts"] is not None else list(CATS)), "user": c["user"], "bot": c["bot"],
-                                                               "dialog": dialog_req(cfg, c["llm_text"])} for c in case["calls"][:n]]}]
+                                                               "dialog": dialog_req(cfg, c["llm_text"], c)} for c in case["calls"][:n]]}]
         for o in obs["per_call"]:
             reqs.append({"m": "C16.genlog", "log": o.get("alog") or []})
         return reqs
     reqs = [{"m": "C16.turn", "cfg": mcfg,
-             "opts": None if case.get("no_options") else (case["opts"] if case["opts"] is not None else list(CATS)), "user": case["user"], "bot": case["bot"], "dialog": dialog_req(cfg, case["llm_text"])}]
+             "opts": None if case.get("no_options") else (case["opts"] if case["opts"] is not None else list(CATS)), "user": case["user"], "bot": case["bot"], "dialog": dialog_req(cfg, case["llm_text"], case)}]
     if obs.get("alog") is not None:
         reqs.append({"m": "C16.genlog", "log": obs["alog"]})
     return reqs
 
 
-def skeleton(alog):
+def skeleton(alog, refusals=("refuse to respond",)):
     """what is compared between the model's log and the real one: everything but steps without a decision other than `stop`
-    (the interpreter's attribution of such steps is not modelled) — after `denoise`."""
+    (the interpreter's attribution of such steps is not modelled) — after `denoise`.  A rail's OWN refusal intent
+    (`bot refuse input 0`) is read as the refusal intent (the model's rails all say `bot refuse to respond`)."""
     out = []
     for e in po.denoise(alog):
         if e[0] == "step" and all(s == ["intent", "stop"] for s in e[2]):
             continue
+        if e[0] == "step":
+            e = ["step", e[1], [["intent", "refuse to respond"] if (s[0] == "intent" and s[1] in refusals) else s for s in e[2]]]
         out.append(e)
     return out
 
@@ -655,8 +776,19 @@ def _compare_e2e(case, obs, m, g2):
         exp = {"exception": {"InputRailException": "input", "OutputRailException": "output", "RetrievalRailException": "retrieval"}.get(obs["exception"], obs["exception"])}
     else:
         exp = {"text": obs["response"]}
-    if m["reply"] != exp:
-        return f"reply: impl {exp}, model {m['reply']}"
+    cfg = case["cfg"]
+    mreply = m["reply"]
+    notice = (cfg.get("msgs") or {}).get("notice") is not None
+    if cfg.get("msgs") is not None and m.get("blocker") and mreply == {"text": po.REFUSAL}:
+        # the model's refusal is ONE plain text; what the blocking rail's predefined message(s) say in this call is rendered here
+        # (documented chain -> values of the variables the rail sets; `po.blocked_utterances`)
+        b = expected_block(cfg, case)
+        if b is not None:
+            mreply = {"text": "\n".join(po.blocked_utterances(cfg, *b))}
+            if "" in po.blocked_utterances(cfg, *b):
+                mreply = exp  # an utterance without any text: the reply is not compared (see the oracle)
+    if mreply != exp:
+        return f"reply: impl {exp}, model {mreply}"
     # trace: rail calls (category, index, text; text of retrieval rails not modelled) and LLM calls
     mcalls = [[s[1], s[2], (None if s[1] == "retrieval" else s[4])] for s in m["trace"] if s[0] == "rail"]
     icalls = [[c[0], c[1], (None if c[0] == "retrieval" else c[2])] for c in obs["calls"]]
@@ -668,12 +800,16 @@ def _compare_e2e(case, obs, m, g2):
     if case.get("no_options"):
         return None
     # processing log skeleton and generation log computed from the MODEL's log
-    if skeleton(m["log"]) != skeleton(obs["alog"]):
-        return f"processing-log skeleton differs: impl {json.dumps(skeleton(obs['alog']))} model {json.dumps(skeleton(m['log']))}"
+    # (a blocking rail that utters a NOTICE before its refusal generates two bot messages; the model's rails utter one: for such a
+    # turn the model's log is not compared - reply, rail calls, LLM calls above and the real log below are)
+    two_utterances = notice and bool(m.get("blocker")) and not cfg.get("exceptions")
+    refusals = po.refusal_intents(cfg)
+    if not two_utterances and skeleton(m["log"]) != skeleton(obs["alog"], refusals):
+        return f"processing-log skeleton differs: impl {json.dumps(skeleton(obs['alog'], refusals))} model {json.dumps(skeleton(m['log']))}"
     g = m["genlog"]
     if g["res"] != "ok":
         return f"GenLog.compute on the model's log: {g['res']}"
-    if _rails_key(g["rails"], False) != _rails_key(obs["rails"], False):
+    if not two_utterances and _rails_key(g["rails"], False) != _rails_key(obs["rails"], False):
         return f"activated rails (from the model's log) differ: impl {_rails_key(obs['rails'], False)} model {_rails_key(g['rails'], False)}"
     # generation log computed by the model from the REAL processing log: everything
     if g2["res"] != "ok":
@@ -703,7 +839,9 @@ def chain(rails, text):
 
 
 def capped(obs):
-    """`RuntimeV1_0.generate_events` raises after more than 100 new events (configurations with many rails)."""
+    """`RuntimeV1_0.generate_events` stops a turn after more than 100 new events (configurations with many rails): older trees
+    raise, the current one logs the warning "Too many events" (captured by `_CapWatch`: `obs["event_cap_hit"]`) and appends the
+    internal-error utterance to whatever was said."""
     return obs.get("exc", "").startswith("Exception: Too many events") or bool(obs.get("event_cap_hit"))
 
 
@@ -758,11 +896,17 @@ def oracle(case, obs):
 
 def _oracle_e2e(case, obs):
     cfg = case["cfg"]
+    sel = set(CATS) if (case.get("no_options") or case["opts"] is None) else set(case["opts"])
     if capped(obs):
-        return None  # the runtime's safety cap (> 100 events in one turn) is outside the model; counted in the tags
+        # the runtime's safety cap (> 100 events in one turn) is outside the model; counted in the tags.  It excuses LONG documented
+        # runs only (a rail takes about eleven events): with few rails selected, 100 events mean that something ran again and again
+        n_doc = sum(len(cfg[c]) for c in ("input", "output", "retrieval") if c in sel)
+        if n_doc >= 5:
+            return None
+        return (f"the turn was cut off by the runtime's safety cap (more than 100 events) although only {n_doc} rail(s) are configured for the selected "
+                f"categories {sorted(sel)}: input/output rails invoked {[c for c in obs.get('calls', []) if c[0] in ('input', 'output')][:8]}…")
     if "exc" in obs:
         return f"generate raised {obs['exc']}"
-    sel = set(CATS) if (case.get("no_options") or case["opts"] is None) else set(case["opts"])
     # (1) only selected categories run
     for c in obs["calls"]:
         if c[0] not in sel:
@@ -771,6 +915,7 @@ def _oracle_e2e(case, obs):
         return f"{obs['llm_calls']} LLM call(s) although dialog rails are not selected"
     # (2) replies per the documented table
     blocked = None  # (category, index, 'blocked' | 'fault')
+    said = None  # what the blocking rail says: the texts of its predefined message(s)
     expected_calls = []
     text = case["user"]
     if "input" in sel and cfg["input"]:
@@ -780,12 +925,14 @@ def _oracle_e2e(case, obs):
             text = res[1]
         else:
             blocked = ("input", res[1], res[0])
+            said = po.blocked_utterances(cfg, "input", res[1], seen[-1], seen[-1])
     reply = None
     if blocked is None:
         if "dialog" in sel:
             d = cfg.get("dialog", "general")
             # predefined messages (incl. the refusal a dialog flow answers with) are not shown to the output rails
-            bot, checked = (cfg.get("predef_text", "Hello there"), False) if d == "predef" else (po.REFUSAL, False) if d == "refuse" else (case["llm_text"], True)
+            # (a predefined message says its text with the template variables replaced by their current values)
+            bot, checked = (po.predef_text(cfg, text), False) if d == "predef" else (po.dialog_refusal(cfg, text), False) if d == "refuse" else (case["llm_text"], True)
             want_llm = {"general": 1, "predef": 1, "llm": 2, "refuse": 1}[d]
             if obs["llm_calls"] != want_llm:
                 return f"dialog rails selected: expected {want_llm} LLM call(s), saw {obs['llm_calls']}"
@@ -802,6 +949,7 @@ def _oracle_e2e(case, obs):
                     reply = res[1]
                 else:
                     blocked = ("output", res[1], res[0])
+                    said = po.blocked_utterances(cfg, "output", res[1], seen[-1], text)
             else:
                 reply = bot
     if blocked is not None:
@@ -810,11 +958,14 @@ def _oracle_e2e(case, obs):
         elif cfg.get("exceptions"):
             reply = None
         else:
-            reply = po.REFUSAL
+            # the refusal: the predefined message(s) of the blocking rail, whatever they interpolate - and nothing checks it again
+            reply = "\n".join(said)
     if blocked is not None and blocked[2] == "blocked" and cfg.get("exceptions"):
         want_exc = {"input": "InputRailException", "output": "OutputRailException"}[blocked[0]]
         if obs.get("exception") != want_exc:
             return f"blocked by {blocked[0]} rail {blocked[1]} in rails-exception mode: expected {want_exc}, got {obs.get('exception')} / {obs.get('response')!r}"
+    elif said is not None and blocked[2] == "blocked" and "" in said:
+        pass  # a predefined message that says NOTHING for the current values (only variables, all empty): what is returned for an empty utterance is not stated
     elif obs.get("exception") or obs["response"] != reply:
         return f"documented reply {reply!r}, got {obs.get('response')!r} {obs.get('exception') or ''}".strip()
     io_calls = [c for c in obs["calls"] if c[0] in ("input", "output")]
@@ -846,7 +997,7 @@ def _failure_class(d):
     for needle, cls in (("generate raised", "raised"), ("ran although", "unselected-category-ran"), ("LLM call(s) although", "llm-without-dialog"),
                         ("dialog rails selected: expected", "llm-count"), ("documented reply", "reply"), ("rails-exception mode", "reply"),
                         ("input/output rails invoked", "rails-invoked"), ("retrieval rails are selected", "selected-retrieval-missing"),
-                        ("log.activated_rails", "log"), ("flagged stop", "log")):
+                        ("log.activated_rails", "log"), ("flagged stop", "log"), ("safety cap", "event-cap-with-few-rails")):
         if needle in d:
             return cls
     return "other"
@@ -919,6 +1070,42 @@ def nontrivial(case, obs):
     return not capped(obs) and (bool(obs.get("calls")) or obs.get("llm_calls", 0) > 0)
 
 
+def msg_tags(cfg, calls):
+    """coverage of the predefined-message dimension: which messages are templates, in which syntax, and whether a rendered
+    refusal differs from its template / mentions a trigger word of an output rail"""
+    m = cfg.get("msgs")
+    t = []
+    if m is None and cfg.get("predef_parts") is None:
+        return ["msgs:library-static"]
+    tpls = []
+    if m is not None:
+        tpls = [x for x in [m.get("refusal"), m.get("notice")] + list((m.get("own") or {}).get("input") or []) + list((m.get("own") or {}).get("output") or []) if x is not None]
+        t.append("msgs:refusal-" + ("library" if m.get("refusal") is None else "template" if po.tpl_is_templated(m["refusal"]) else "custom-static"))
+        if any(x is not None for cat in ("input", "output") for x in (m.get("own") or {}).get(cat) or []):
+            t.append("msgs:rail-own-refusal")
+        if m.get("notice") is not None:
+            t.append("msgs:notice-before-refusal")
+    if cfg.get("predef_parts") is not None:
+        tpls.append(cfg["predef_parts"])
+        t.append("msgs:dialog-predefined-template")
+    for x in tpls:
+        for p_ in x:
+            if p_[0] == "var":
+                t += ["tpl-syntax:" + p_[2], "tpl-var:" + p_[1]]
+    for c in calls:
+        b = expected_block(cfg, c) if m is not None and not cfg.get("exceptions") else None
+        if b is not None:
+            said = po.blocked_utterances(cfg, *b)
+            t.append("blocked-with-msgs:" + b[0])
+            if "" in said:
+                t.append("predefined-message-says-nothing")
+            if "output" in selection(c) and cfg["output"]:
+                t.append("blocked-with-msgs-output-selected")
+                if any(chain(cfg["output"], u)[0][0] != "ok" or chain(cfg["output"], u)[0][1] != u for u in said):
+                    t.append("rendered-refusal-would-trip-an-output-rail")
+    return sorted(set(t))
+
+
 def tags(case, obs):
     if case["kind"] == "interp":
         return ci.tags(case, obs)
@@ -951,6 +1138,7 @@ def tags(case, obs):
                 t.append("later-call-blocked")
             if "exc" in o:
                 t.append("seq-exc")
+        t += msg_tags(case["cfg"], [call_case(case, k) for k in range(len(obs["per_call"]))])
         prev_block_unselected_out = any(("output" not in (c["opts"] if c["opts"] is not None else CATS)) and obs["per_call"][k].get("response") == po.REFUSAL
                                         for k, c in enumerate(case["calls"][: len(obs["per_call"]) - 1]))
         if prev_block_unselected_out:
@@ -969,9 +1157,11 @@ def tags(case, obs):
         t.append("dialog-refusal-no-rail-blocked")
     if cfg.get("exceptions"):
         t.append("exceptions-mode")
+    t += msg_tags(cfg, [case])
+    eb = expected_block(cfg, case)
     if obs.get("exception"):
         t.append("reply:exception")
-    elif obs.get("response") == po.REFUSAL:
+    elif obs.get("response") == po.REFUSAL or (eb is not None and obs.get("response") == "\n".join(po.blocked_utterances(cfg, *eb))):
         t.append("reply:refusal")
     elif obs.get("response") == po.INTERNAL_ERROR:
         t.append("reply:internal-error")
@@ -1014,6 +1204,22 @@ def _shrink(case):
             yield dict(case, log=ev[:i] + ev[i + 1:])
         return
     cfg = case["cfg"]
+    if cfg.get("msgs") is not None:
+        # predefined messages back to the library's static ones, one at a time
+        m = cfg["msgs"]
+        yield dict(case, cfg={k: v for k, v in cfg.items() if k not in ("msgs", "reasons")})
+        if m.get("notice") is not None:
+            yield dict(case, cfg=dict(cfg, msgs=dict(m, notice=None)))
+        if any(x is not None for cat in ("input", "output") for x in (m.get("own") or {}).get(cat) or []):
+            yield dict(case, cfg=dict(cfg, msgs=dict(m, own={"input": [], "output": []})))
+        if m.get("refusal") is not None and len(m["refusal"]) > 1:
+            for part in m["refusal"]:
+                if part[0] == "var":
+                    yield dict(case, cfg=dict(cfg, msgs=dict(m, refusal=[part])))
+        if cfg.get("reasons") and any(r not in ("r", "") for cat in ("input", "output") for r in cfg["reasons"].get(cat, [])):
+            yield dict(case, cfg=dict(cfg, reasons={cat: ["r" for _ in cfg["reasons"].get(cat, [])] for cat in ("input", "output")}))
+    if cfg.get("predef_parts") is not None:
+        yield dict(case, cfg={k: v for k, v in cfg.items() if k != "predef_parts"})
     if case["kind"] == "seq":
         calls = case["calls"]
         for i in range(len(calls)):
@@ -1033,7 +1239,14 @@ def _shrink(case):
                     yield dict(case, calls=calls[:i] + [dict(c, **{k: c[k].split(" ")[0] or "q"})] + calls[i + 1:])
     for cat in ("input", "output", "retrieval"):
         for i in range(len(cfg[cat])):
-            yield dict(case, cfg=dict(cfg, **{cat: cfg[cat][:i] + cfg[cat][i + 1:]}))
+            c2 = dict(cfg, **{cat: cfg[cat][:i] + cfg[cat][i + 1:]})
+            if cat != "retrieval":
+                if cfg.get("reasons") and len(cfg["reasons"].get(cat, [])) > i:
+                    c2["reasons"] = dict(cfg["reasons"], **{cat: cfg["reasons"][cat][:i] + cfg["reasons"][cat][i + 1:]})
+                own = ((cfg.get("msgs") or {}).get("own") or {}).get(cat) or []
+                if len(own) > i:
+                    c2["msgs"] = dict(cfg["msgs"], own=dict(cfg["msgs"]["own"], **{cat: own[:i] + own[i + 1:]}))
+            yield dict(case, cfg=c2)
         for i, rules in enumerate(cfg[cat]):
             for j in range(len(rules)):
                 yield dict(case, cfg=dict(cfg, **{cat: cfg[cat][:i] + [rules[:j] + rules[j + 1:]] + cfg[cat][i + 1:]}))
